@@ -2,7 +2,7 @@
    gb_show = GenBank.String, genbank_parser / scan_genbank = GenBankParser and
    the Scanner loop on the faithful pars model (model/GenBank.v, Insdc.v);
    both run against the implementation in the correspondence check. *)
-From GTS Require Import Base Arith Pars GenBank GenBankProofs.
+From GTS Require Import Base Arith Pars Insdc GenBank ParsLemmas GenBankProofs BodyRT StripProofs.
 Open Scope Z_scope.
 
 (* the date of the LOCUS line: every valid calendar date (leap days included)
@@ -35,3 +35,37 @@ Example C01_keywords_example :
   let ks := [[82;101;102;83;101;113]; [97;59;98]; [99;32;100]] in
   Forall nosep ks /\ flatfile_split (join_semi ks ++ [46]) = ks.
 Proof. split; [repeat constructor; intros [H [t Ht]]; discriminate|reflexivity]. Qed.
+
+(* DEFINITION, COMMENT, the reference subfields and extra fields are written as
+   name + AddPrefix(text, indent) + "\n".  The field body parser on the faithful
+   pars model reads the text back, line breaks included, whatever follows it,
+   as long as the next line is not indented like a continuation line.
+   l0 :: ls are the lines of the text (no CR, no LF inside a line). *)
+Theorem C01_field_body_roundtrip_partial : forall depth l0 ls post o e a k,
+  no_eol l0 -> Forall no_eol ls -> is_prefix (repeat_byte 32 depth) post = false ->
+  exists s', field_body_parser' depth 10
+               (mkst ((add_prefix (l0 ++ joined 10 ls) (repeat_byte 32 depth) ++ [10]) ++ post) o e a k) =
+             (Ok (l0 ++ joined 10 ls, negb (match ls with [] => true | _ => false end)), s')
+             /\ rest s' = post /\ stk s' = k.
+Proof. exact field_body_roundtrip. Qed.
+Print Assumptions C01_field_body_roundtrip_partial.
+
+(* KEYWORDS and the taxonomy: wrap.Space, AddPrefix, then the body parser that
+   joins continuation lines with a blank: the text comes back unchanged *)
+Theorem C01_keywords_body_roundtrip_partial : forall depth s n post o e a k,
+  no_nl s -> no_cr s -> is_prefix (repeat_byte 32 depth) post = false ->
+  exists flag s', field_body_parser' depth 32
+               (mkst ((add_prefix (wrap_space s n) (repeat_byte 32 depth) ++ [10]) ++ post) o e a k) =
+             (Ok (s, flag), s') /\ rest s' = post /\ stk s' = k.
+Proof. exact (keywords_body_roundtrip wrap_unwrap). Qed.
+Print Assumptions C01_keywords_body_roundtrip_partial.
+
+(* a multi-line qualifier value: QualifierIO.String writes AddPrefix(value,
+   prefix), quotedQualifierParser strips "\n"+prefix repeatedly from the left;
+   the value is restored whenever no line break in it is followed by the
+   continuation prefix itself (21 blanks in a GenBank table) *)
+Theorem C01_qualifier_value_roundtrip_partial : forall prefix v,
+  prefix <> [] -> no10 prefix -> no_occ (10 :: prefix) v ->
+  strip_prefixes (S (length (add_prefix v prefix))) (10 :: prefix) (add_prefix v prefix) = v.
+Proof. exact qualifier_value_roundtrip. Qed.
+Print Assumptions C01_qualifier_value_roundtrip_partial.
